@@ -195,6 +195,90 @@ def lua_stack_balance(rep: C.Report) -> None:
         ob.detail += f"{type(e).__name__}: {e}"
 
 
+GLOBAL_MOD = "local p = {}\nfunction p.set(frame) leak_g = (leak_g or 0) + 1; return tostring(leak_g) end\nfunction p.get(frame) return tostring(leak_g) end\nreturn p"
+
+
+def captured_not_rebound(rep: C.Report) -> None:
+    """Ob6: objects handed to the Lua side BY REFERENCE when the sandbox is initialised (functools.partial(helper, ctx.<attr>)
+    in luaexec.py) must stay the objects the context uses: no method of Wtp other than __init__ may rebind `self.<attr>`
+    (z3 path query: an assignment to the attribute is reachable on some path of the method).  A rebinding in start_page makes
+    Python and Lua work on two different stacks from the second page on: the per-invocation environments are never popped
+    and Lua globals leak from one #invoke to the next.  Replay on the real sandbox."""
+    ob = rep.add(C.Ob("Ob6 objects captured by reference at sandbox initialisation are never rebound by the context", "E3 AST path encoder + z3 + replay on the real sandbox", ["luaexec.py:set_lua_env_funcs (functools.partial captures)", "core.py:Wtp methods"], "all syntactic paths of every Wtp method except __init__"))
+    try:
+        ltree = ast.parse(open(os.path.join(C.SRC, "luaexec.py")).read())
+        params = {"wtp", "ctx", "self"}
+        captured = set()
+        for n in ast.walk(ltree):
+            if isinstance(n, ast.Call) and ((isinstance(n.func, ast.Name) and n.func.id == "partial") or (isinstance(n.func, ast.Attribute) and n.func.attr == "partial")):
+                for a in n.args[1:]:
+                    if isinstance(a, ast.Attribute) and isinstance(a.value, ast.Name) and a.value.id in params:
+                        captured.add(a.attr)
+        ob.samples.append({"captured_by_reference": sorted(captured)})
+        if not captured:
+            ob.verdict, ob.detail = C.NOT_ENCODABLE, "no partial(helper, ctx.<attr>) capture found in luaexec.py"
+            return
+        ctree = ast.parse(open(os.path.join(C.SRC, "core.py")).read())
+        bad = []
+        for q, fn in AP.functions(ctree):
+            if len(q) != 2 or q[0] != "Wtp" or q[1] == "__init__":
+                continue
+
+            def delta(n):
+                tg = []
+                if isinstance(n, ast.Assign):
+                    tg = n.targets
+                elif isinstance(n, (ast.AnnAssign, ast.AugAssign)):
+                    tg = [n.target]
+                for t in tg:
+                    for e in ast.walk(t):
+                        if isinstance(e, ast.Attribute) and isinstance(e.value, ast.Name) and e.value.id == "self" and e.attr in captured and isinstance(e.ctx, ast.Store):
+                            return {"rebind": 1}
+                return None
+
+            if not any(delta(n) for n in ast.walk(fn)):
+                ob.conditions += 1
+                ob.confirmed_conditions += 1
+                continue
+            enc = AP.Encoder(fn, ["rebind"], delta).run()
+            for ex in enc.exits:
+                sol = z3.Solver()
+                sol.add(ex.guard, ex.counters["rebind"] >= 1)
+                r = str(sol.check())
+                ob.queries += 1
+                ob.paths += 1
+                ob.conditions += 1
+                if r == "unsat":
+                    ob.confirmed_conditions += 1
+                else:
+                    bad.append((q[1], ex.kind, ex.line))
+        if not bad:
+            ob.verdict = C.DISCHARGED
+            return
+        ob.samples.append({"rebinding_paths": bad[:5]})
+        from vf.wtpfix import new_ctx, close
+
+        w = new_ctx(modules={"g": GLOBAL_MOD})
+        res = []
+        try:
+            w.start_page("P1")
+            res.append(w.expand("{{#invoke:g|set}}"))
+            for title in ("P2", "P3"):
+                w.start_page(title)
+                res.append(w.expand("{{#invoke:g|set}}") + "," + w.expand("{{#invoke:g|get}}") + "," + w.expand("{{#invoke:g|set}}"))
+        except Exception as e:  # noqa: BLE001
+            res.append(f"EXC {type(e).__name__}: {e}")
+        close(w)
+        want = ["1", "1,nil,1", "1,nil,1"]
+        if res != want:
+            v = rep.violation("three pages on one context, each: expand('{{#invoke:g|set}}'), expand('{{#invoke:g|get}}'), expand('{{#invoke:g|set}}') (module increments a Lua global)", f"results {res}: a Lua global set by one invocation is visible to the next (every invocation starts from a fresh environment: {want}); {bad[0][0]}() rebinds an object that Lua holds by reference", {"paths": bad[:3]})
+            ob.verdict = C.VIOLATED if v.known is None else C.KNOWN
+        else:
+            ob.detail = f"rebinding path(s) {bad[:3]} but the replay shows fresh environments -> inconclusive"
+    except Exception as e:  # noqa: BLE001
+        ob.detail += f"{type(e).__name__}: {e}"
+
+
 SIG = "bol: bool, wsp: bool, linenum: int, pre_parse: bool, supp: bool, sec: str, has_sec: bool, junk: str, smc: int, pstack: bool"
 ARGS = "bol, wsp, linenum, pre_parse, supp, sec, has_sec, junk, smc, pstack"
 COND = """
@@ -324,6 +408,7 @@ def run(rep: C.Report) -> None:
     alias_check(rep)
     lua_stack_balance(rep)
     lua_data_caches(rep)
+    captured_not_rebound(rep)
 
 
 def replay(r: dict) -> int:
